@@ -96,7 +96,9 @@ def out_of_domain(ty, rng):
     """(description, python object) pairs the setter must reject"""
     if ty in INT_RANGES:
         lo, hi = INT_RANGES[ty]
-        return [("below", lo - 1, ("int", lo - 1)), ("above", hi + 1, ("int", hi + 1))]
+        # not integers at all: a fraction must not be truncated, a numeric string not be converted
+        return [("below", lo - 1, ("int", lo - 1)), ("above", hi + 1, ("int", hi + 1)),
+                ("a fraction", 3.7, None), ("a negative fraction", -2.5, None), ("a numeric string", "12", None)]
     if ty == "TUtf8":
         return [("lone surrogate", "a\ud800b", ("text", [97, 0xd800, 98]))]
     if ty == "TTime":
@@ -155,7 +157,7 @@ def check(run):
                           what="re-registering a (code, vendor) pair with another type is not followed by the decoder")
         # the history entries are not part of the dictionary tables the model was generated from: take them out again
         from diameter.message.avp import avp as _avpmod
-        (_avpmod.AVP_VENDOR_DICTIONARY[vendor] if vendor else _avpmod.AVP_DICTIONARY).pop(code, None)
+        (_avpmod.AVP_VENDOR_DICTIONARY.get(vendor, {}) if vendor else _avpmod.AVP_DICTIONARY).pop(code, None)
     # run-time registrations (part of the quantifier)
     A.register(90000001, "Verif-Runtime-Text", A.AvpUtf8String, vendor=9999999, mandatory=True)
     A.register(90000002, "Verif-Runtime-Group", A.AvpGrouped, vendor=9999999)
